@@ -20,7 +20,7 @@ for l in open(sys.argv[1]):
 WAVE3 = set("""C04-6 C04-7 C13-4 C13-5 C13-6 C14-6 C14-7 C14-8 C18-6 C18-7 C19-6 C19-7 C19-8 C19-9 C06-5 C06-6 C06-7 C06-8
 C11-6 C11-7 C11-8 C12-6 C12-7 C12-8 C05-5 C05-6 C05-7 C05-8 C07-6 C07-7 C07-8 C07-9 C09-5 C09-6 C09-7 C09-8 C10-5 C10-6 C10-7""".split())
 WAVE4 = set("C06-9 C06-10 C04-8 C19-10 C13-7 C18-8 C18-9 C11-9 C14-9 C09-9".split())
-WAVE5 = set("C10-8 C13-8 C04-9 C12-9".split())
+WAVE5 = set("C10-8 C13-8 C04-9 C12-9 C14-10 C06-11".split())
 # wave-3 agents that, against their instructions, read files under /verif (titles of earlier seeded
 # changes; one read a scenario generator) before choosing their changes
 PEEKED = {'C07': 'read the titles of the earlier /verif/seeded/C07-* changes to avoid repeating them',
